@@ -121,12 +121,19 @@ def handle (fn : String) (a : Json) : R Json := do
         | some (.str "none") => pure (fun _ => false)
         | some j => do let ps ← (← arr j).mapM nat; pure (fun p => ps.contains p)
       let chk ← match fieldOpt a "chk" with | some b => bool b | none => pure Gen.C10.iterChecksFinishedAtToken
-      let c : HttpM.Cfg := ⟨env, brk, chk⟩
+      -- the network: POST attempts (0-based over the session) whose responses are lost; the client's retry budget
+      let lostL ← match fieldOpt a "lost" with | some j => do (← arr j).mapM nat | none => pure []
+      let retries ← match fieldOpt a "retries" with | some j => do pure (some (← nat j)) | none => pure none
+      let rc ← match fieldOpt a "retry_cancel" with | some b => bool b | none => pure Gen.C10.cancelRetried
+      let c : HttpM.Cfg := { env := env, brk := brk, chk := chk, lost := fun r => lostL.contains r, retries := retries,
+                             retryCancel := rc }
       match HttpM.openS c m with
       | (oe, none) =>
-        let l := match m.init with | some _ => [] | none => (HttpM.initBody c m).2
+        let l := match m.init with
+          | some _ => []
+          | none => HttpM.rep (HttpM.post c true 0).1 (HttpM.initBody c m).2
         pure (obj [("open", evs oe), ("session", ofBool false), ("trace", ofList []), ("slog", ofList (l.map sevJson)),
-                   ("contacts", ofNat 1), ("per_op", ofList [])])
+                   ("contacts", ofNat (HttpM.post c true 0).1), ("per_op", ofList [])])
       | (oe, some s0) =>
         let (s, t) := runHttp c m.prog s0 ops
         pure (obj [("open", evs oe), ("session", ofBool true), ("trace", ofList (t.map (·.1))),
